@@ -70,6 +70,7 @@ func genC07(rng *rand.Rand, n int, emit func(Case), dist map[string]int) {
 		b, _ := json.Marshal(v)
 		return v, L(I(2), S(string(b)))
 	}
+	insideShared := false
 	genErr = func(depth int) (error, Sx) {
 		k := rng.Intn(6)
 		if depth >= 3 {
@@ -90,7 +91,7 @@ func genC07(rng *rand.Rand, n int, emit func(Case), dist map[string]int) {
 			markers = append(markers, t)
 			return fmt.Errorf(t+": %w", in), L(I(1), S(t), isx)
 		case 5:
-			if rng.Intn(2) == 0 {
+			if !insideShared && rng.Intn(2) == 0 {
 				// one of the package's shared error values, bare or with an internal error attached through WithInternal
 				// (which must hand out a copy: the shared value itself stays as it is for every later request)
 				g := []*echo.HTTPError{echo.ErrTeapot, echo.ErrForbidden, echo.ErrUnsupportedMediaType}[rng.Intn(3)]
@@ -98,7 +99,9 @@ func genC07(rng *rand.Rand, n int, emit func(Case), dist map[string]int) {
 				if rng.Intn(2) == 0 {
 					return g, L(I(2), I(g.Code), msx, L())
 				}
+				insideShared = true // (no shared value inside a shared value: a faulty WithInternal could otherwise build a cycle)
 				in, isx := genErr(depth + 1)
+				insideShared = false
 				return g.WithInternal(in), L(I(2), I(g.Code), msx, L(isx))
 			}
 			fallthrough
@@ -134,6 +137,7 @@ func genC07(rng *rand.Rand, n int, emit func(Case), dist map[string]int) {
 			e.Use(middleware.RecoverWithConfig(middleware.RecoverConfig{DisablePrintStack: true}))
 		}
 		errv, esx := genErr(0)
+		esx0 := esx
 		errText := errv.Error()
 		commitBefore := 0
 		commitStyle := 0 // 0: a response helper with a body, 1: Flush alone (commits 200, e.g. an SSE set-up), 2: WriteHeader then Flush
@@ -278,11 +282,9 @@ func genC07(rng *rand.Rand, n int, emit func(Case), dist map[string]int) {
 		wantCode := 500
 		if he, isHE := errv.(*echo.HTTPError); isHE && panicVal == nil && !invalidSet || (mode == 3 && panicVal == error(errv)) && func() bool { _, x := errv.(*echo.HTTPError); return x }() {
 			_ = he
-			he2 := errv.(*echo.HTTPError)
-			wantCode = he2.Code
-			if in, isIn := he2.Internal.(*echo.HTTPError); isIn {
-				wantCode = in.Code
-			}
+			// from the DESCRIPTION of the error as it was built (not from the live object: shared package-level error values
+			// must not have been changed by earlier requests)
+			wantCode = c07DescCode(esx0)
 		}
 		switch {
 		case escaped:
@@ -334,3 +336,23 @@ func (m c07SelfJSON) MarshalJSON() ([]byte, error) {
 	return json.Marshal(map[string]string{"self_formatted": m.Detail})
 }
 func (m c07SelfJSON) Error() string { return "error text of a self-formatting message: " + m.Detail }
+
+// c07DescCode: the status an error description denotes - an HTTP error's code, or that of the HTTP error it directly carries.
+func c07DescCode(d Sx) int {
+	l, isList := d.(sxList)
+	if !isList || len(l.l) < 4 {
+		return 500
+	}
+	if k, isInt := l.l[0].(sxInt); !isInt || k.v.Int64() != 2 {
+		return 500
+	}
+	code := int(l.l[1].(sxInt).v.Int64())
+	if in, has := l.l[3].(sxList); has && len(in.l) == 1 {
+		if il, isL := in.l[0].(sxList); isL && len(il.l) >= 2 {
+			if k, isInt := il.l[0].(sxInt); isInt && k.v.Int64() == 2 {
+				return int(il.l[1].(sxInt).v.Int64())
+			}
+		}
+	}
+	return code
+}
